@@ -25,6 +25,10 @@ REQUIRED_THEOREMS = ["declare_variable_spec", "redeclaration_is_reported", "shad
 THEOREM_MODULES.append("Yarel.Props.FnsTie.Statements")
 REQUIRED_THEOREMS += ["begin_scope_skeleton", "end_scope_skeleton", "end_scope_underflow", "var_declaration_skeleton", "define_variable_skeleton",
                       "break_discards_before_jumping"]
+# the state the models abstract is all the state there is: the fields of the run-time structures, regenerated on every run, are the ones
+# the models were written against (Props/StateInventory)
+THEOREM_MODULES.append("Yarel.Props.StateInventory")
+REQUIRED_THEOREMS += ['state_of_closures']
 LEVEL = "proof"
 ASSUMPTIONS = [
     "mechanism model Yarel/Model/Upvalues.lean transcribes capture_upvalue/close_upvalues (tie: replay of real capture/close events)",
